@@ -11,6 +11,7 @@ import AnyVecModel.Proofs.KernelTempDrop
 import AnyVecModel.Proofs.KernelClear
 import AnyVecModel.Proofs.KernelClone
 import AnyVecModel.Props.Hist
+import AnyVecModel.Proofs.KernelElemDrop
 namespace AnyVec
 namespace C03
 open World
@@ -180,6 +181,16 @@ theorem erased_destructor_is_the_source (n : Nat) (c : KernelTie.MCtx) (s : Nat)
     Gen.Kernel.drop_fn_cmds n = [.dropEach 0 n] ∧
     KernelTie.runCmd c (.dropFn s n) = KernelTie.runCmd c (.dropEach s n) :=
   ⟨KernelTie.drop_fn_tie n, KernelTie.dropFn_is_dropEach c s n⟩
+
+/-- **source tie**: an owned drained element that goes out of scope (`impl Drop for ElementPointer`, source of this run)
+runs the erased destructor on exactly its own slot, once - the model's `valDrop` of a drained element. -/
+theorem drained_element_drop_is_the_source (w : World) (v slot : Nat) (d : VecSt) (hv : w.vecs[v]? = some d)
+    (hl : d.live = true) :
+    Gen.Kernel.element_drop_cmds slot d.hasDrop = (if d.hasDrop then [.dropFn slot 1] else []) ∧
+    valDrop d.hasDrop (.elem v slot) w =
+      (if d.hasDrop then KernelTie.runCmds { v := v } (Gen.Kernel.element_drop_cmds slot d.hasDrop)
+       else do let id ← readElem v slot; dropElem false id) w :=
+  KernelTie.element_drop_tie w v slot d hv hl
 
 end C03
 end AnyVec
